@@ -81,7 +81,21 @@ MORE = {
  "C19": "; also empty containers of the declared type as inputs and one input object parsed twice",
  "C20": "; also a subclass whose base holds the pending references first-parsed by every thread; anchor-cut schedules (stop a writer before a chosen store into shared state - profiled in a twin world -, run another thread for whole operations or up to a chosen read, hand control back to the stopped writer)",
 }
+MORE2 = {  # worlds added with the repair-review rounds 6-8
+ "C04": "; the constrained types the library ships (Timestamp, Year, Month, EmailStr) called directly, dates / times / durations at their limits, an endless iterator that ticks the step clock, input keys named like the generated constructor's parameters, faulty containers at the top of rule calls; a fault-free control that raises anything but ParseError is a violation",
+ "C06": "; positional mappings with int / str-subclass keys, positional-only parameters also given by keyword, property setters as fields; fail-fast with several failing items: the same first (class, item)",
+ "C07": "; typed / diamond / second-level property dependencies, a property over a no_output field, getter+deleter properties, late-failing setters, class options invalid_values='exclude', run-time options kept by the instance, additional items present from the start (attribute view maintained)",
+ "C08": "; rich signatures (*rest: PosInt, keyword-only Param defaults), ignore_result / ignore_params, bare methods of decorated classes",
+ "C10": "; two and three typed property outputs, a __validate__ hook, alias conflicts (one report per item), dependencies on refused fields (no phantom absence), positional-only parameters",
+ "C11": "; unions / one-of over containers, contains / max_contains, JSON-text inputs of discriminated fields, items given unhashable for a set, a keyword-only parameter depending on a positional one",
+ "C16": "; metaclass and Protocol criteria, falsy converter and detector objects, a memo-race template in a third of the threaded plans",
+ "C17": "; Array['X'] / Object[str, 'X'] / PosInt | List['X'] (types built before the declaration), Final / ClassVar next to references, Self inside lazily evaluated annotations, dotted 'MOD.X' spelling, a subclass in another module, the first use being an assignment, a data class naming the class of its own body, a function under a functools.wraps decorator of another module",
+ "C19": "; const / Enum / lax-bound fields whose values are mutable, deque defaults, two declarations sharing one Field object whose types are named by reference, an instance re-initialised after a refused initialisation, nested instances assigned after union trial passes (P4), discriminated declarations that are refused at first use",
+ "C20": "; a function's return declaration and a second module's function resolved for the first time by concurrent calls, profiled write cuts",
+}
 for _k, _v in MORE.items():
+    CLAIMED[_k]["level"] += _v
+for _k, _v in MORE2.items():
     CLAIMED[_k]["level"] += _v
 CLAIMED["C20"]["note"] = CLAIMED["C20"]["note"].replace("races that need two narrow windows are hit ~2 per 10000 runs (thorough tier)", "races that need two narrow windows are reached through the anchor-cut schedules (the three seeded ones within the quick tier's 6000 runs)")
 CLAIMED["C08"]["note"] = CLAIMED["C08"]["note"].replace("the binding clause of C08 (a pure function of signature and call) is NOT decided", "the binding clause of C08 (a pure function of signature and call) is NOT decided beyond the two signatures the worlds use")
